@@ -139,11 +139,13 @@ theorem mkRegister_ok {n : String} {size v : Val} (h : mkRegister n size = .ok v
     · cases h; intro k hk; cases hk
   · split at h
     · simp [throw_eq] at h
-    · cases h
-      intro k hk
-      rename_i h1 h2 h3 h4
-      subst hk
-      exact absurd rfl (h2 k)
+    · split at h
+      · simp [throw_eq] at h
+      · cases h
+        intro k hk
+        rename_i h1 h2 h3 h4 h5
+        subst hk
+        exact absurd rfl (h2 k)
 
 theorem pyLt_int {a b : Int} : pyLt (.int a) (.int b) = .ok (decide (a < b)) := rfl
 theorem pyLe_int {a b : Int} : pyLe (.int a) (.int b) = .ok (!decide (b < a)) := rfl
@@ -857,8 +859,8 @@ theorem addVar_ok {ctx ctx' : Ctx} {n : String} {v : Val} (hc : CtxOK ctx) (hv :
     · simp only [hk, Option.some.injEq] at hl; subst hl; exact hv
     · simp only [hk] at hl; exact hc n' v' hl
 
-theorem stepTail_ok {cfg : Config} {inject : Option (List (String × GateDef))} {acc a1 : Acc} {o : Obj} {st : St}
-    (ha : AccOK acc) (ho : ObjOK o) (hm : MemoStmts st.memo) (h : stepTail cfg inject acc o st = .ok a1) : AccOK a1 := by
+theorem stepTail_ok {cfg : Config} {mode : KeyMode} {inject : Option (List (String × GateDef))} {acc a1 : Acc} {o : Obj} {st : St}
+    (ha : AccOK acc) (ho : ObjOK o) (hm : MemoStmts st.memo) (h : stepTail cfg mode inject acc o st = .ok a1) : AccOK a1 := by
   cases o with
   | val v =>
     cases v <;> simp only [stepTail, throw_eq] at h <;> first
@@ -897,7 +899,11 @@ theorem stepTail_ok {cfg : Config} {inject : Option (List (String × GateDef))} 
       | some gs =>
         simp [hi, pure, Except.pure] at h
         rw [← h]
-        exact ⟨ha.ctx, hm, ha.regs, ha.stmts, ha.macros⟩
+        refine ⟨ha.ctx, ?_, ha.regs, ha.stmts, ha.macros⟩
+        show MemoStmts (if mode = KeyMode.noReset then st.memo else [])
+        split
+        · exact hm
+        · intro k s0 hk; cases hk
     · simp only [hau] at h
       cases h
       exact ⟨ha.ctx, hm, ha.regs, ha.stmts, ha.macros⟩
